@@ -13,6 +13,11 @@ func vhBuildGroupMap(storage SlabStorage, addr Address, b *vDigesterBuilder, nsi
 	return vhBuildGroupMapDeep(storage, addr, b, nsingle, gsize, gpos, external, false)
 }
 
+// vhGroupMulti: when set, vhBuildGroupMapDeep puts the group and its singles
+// into a NON-ROOT leaf, followed by a second leaf of two singles, under an
+// index root (operations then run through MapMetaDataSlab).
+var vhGroupMulti bool
+
 // deep: the gsize members share the first AND the second-level digest; they
 // sit in a nested inline group (third-level digests ascending) that is the
 // only entry of the first-level group.
@@ -137,6 +142,42 @@ func vhBuildGroupMapDeep(storage SlabStorage, addr Address, b *vDigesterBuilder,
 			es.size += digestSize + el.size
 		}
 	}
+	if vhGroupMulti {
+		id1, _ := storage.GenerateSlabID(addr)
+		id2, _ := storage.GenerateSlabID(addr)
+		leaf1 := &MapDataSlab{
+			header:   MapSlabHeader{slabID: id1, size: mapDataSlabPrefixSize + es.size, firstKey: es.firstKey()},
+			elements: es,
+			next:     id2,
+		}
+		vhAssume(leaf1.header.size >= minThreshold)
+		vhAssume(leaf1.header.size <= maxThreshold)
+		es2 := newHkeyElements(0)
+		for j := 0; j < 2; j++ {
+			var dummy uint64
+			el, k := newSingle(false, 0, &dummy, true)
+			vhAssume(k.d[0] > prev)
+			prev = k.d[0]
+			es2.hkeys = append(es2.hkeys, Digest(k.d[0]))
+			es2.elems = append(es2.elems, el)
+			es2.size += digestSize + el.size
+		}
+		leaf2 := &MapDataSlab{
+			header:   MapSlabHeader{slabID: id2, size: mapDataSlabPrefixSize + es2.size, firstKey: es2.firstKey()},
+			elements: es2,
+		}
+		vhAssume(leaf2.header.size >= minThreshold)
+		vhAssume(leaf2.header.size <= maxThreshold)
+		mroot := &MapMetaDataSlab{
+			header:          MapSlabHeader{slabID: rootID, size: mapMetaDataSlabPrefixSize + 2*mapSlabHeaderSize, firstKey: leaf1.header.firstKey},
+			childrenHeaders: []MapSlabHeader{leaf1.header, leaf2.header},
+			extraData:       &MapExtraData{TypeInfo: vTypeInfo{id: 42}, Count: uint64(len(kvs)), Seed: 7},
+		}
+		_ = storage.Store(id1, leaf1)
+		_ = storage.Store(id2, leaf2)
+		_ = storage.Store(rootID, mroot)
+		return &OrderedMap{Storage: storage, root: mroot, digesterBuilder: b}, kvs, groupIdx
+	}
 	root := &MapDataSlab{
 		header:    MapSlabHeader{slabID: rootID, size: mapRootDataSlabPrefixSize + es.size, firstKey: es.firstKey()},
 		elements:  es,
@@ -159,12 +200,23 @@ func VH_C12_GroupStep() {
 	if vhChoose("listmode", 2) == 1 {
 		b.levels = 1
 	}
-	nsingle := vhChoose("nsingle", vhParam("singles", 3)+1)
+	op := vhChoose("op", 6)
+	maxSingles := vhParam("singles", 3)
+	if op == 3 {
+		// removal from a group can GROW its leaf (an external group collapses
+		// into its last, possibly large, element): allow a leaf that is full
+		maxSingles++
+	}
+	nsingle := vhChoose("nsingle", maxSingles+1)
 	gsize := 2 + vhChoose("gsize", vhParam("gsize", 2)-1)
 	gpos := vhChoose("gpos", nsingle+1)
 	external := vhChoose("external", 2) == 1
 	deep := b.levels > 1 && vhChoose("deep", 2) == 1
+	// the group's leaf is the root, or (for the operations on the group itself)
+	// a non-root leaf under an index root
+	vhGroupMulti = (op == 3 || (op >= 1 && op <= 2 && nsingle <= 1)) && vhChoose("multi", 2) == 1
 	m, model, gidx := vhBuildGroupMapDeep(storage, addr, b, nsingle, gsize, gpos, external, deep)
+	vhGroupMulti = false
 	rootID := m.SlabID()
 	gd0 := model[gidx[0]].key.d[0]
 	// entries the collision limit counts for the group's first-level digest
@@ -172,7 +224,6 @@ func VH_C12_GroupStep() {
 	if deep {
 		entries = 1
 	}
-	op := vhChoose("op", 6)
 	switch op {
 	case 0: // lookup of an absent key that collides with the group at the first level
 		k := vhNewKey(9999)
